@@ -129,7 +129,7 @@ var registry = map[string]func(t *testing.T, c *Collector){
 			runCrashScenarios(c, c03Scenarios("C03", c.job.Tier))
 		}
 		c.count("nontrivial", c.res.Counters["torn_images"])
-		if !c.expired() {
+		if !c.expired() && os.Getenv("VERIF_ONLY") != "seq" {
 			engine := c.res.Engine
 			scs := c03ConcScenarios(c.job.Tier)
 			runConcScenarios(t, c, scs)
